@@ -411,6 +411,48 @@ pub fn main(tier: Tier, seed: u64) -> i32 {
     }
     rep.set("reflection", json!({"runs": rcases.len(), "detected": refl_detected, "round_not_reached": refl_not_applicable, "victim_errors": refl_kinds}));
 
+    // ---- replay of an earlier batch's message ----------------------------------------------------------
+    // Every label occurs once per batch; the corrupted party sends, in place of its message #j, the
+    // message with the same label that it sent to the same peer in batch #i < j (checks that reuse
+    // coefficients or commitments across batches would accept it).
+    let mut pcases: Vec<(usize, usize, usize)> = vec![];
+    for (ci, cfg) in cfgs.iter().enumerate() {
+        for (mj, m) in cfg.honest.msgs.iter().enumerate() {
+            if m.from != cfg.corrupted || is_online(&m.label) || m.ord == 0 || !crate::campaign::direct_detection_expected(&m.label) || m.label.starts_with("broadcast ") {
+                continue;
+            }
+            if let Some(mi) = cfg.honest.msgs.iter().position(|e| e.from == m.from && e.to == m.to && e.label == m.label && e.ord + 1 == m.ord)
+                && cfg.honest.msgs[mi].bytes != m.bytes
+            {
+                pcases.push((ci, mi, mj));
+            }
+        }
+    }
+    let pres = par_map(&pcases, |w, _, (ci, mi, mj)| {
+        let cfg = &cfgs[*ci];
+        let f = crate::adv::send_fault(&cfg.honest.msgs[*mj], cfg.honest.msgs[*mi].bytes.clone());
+        run_faults(cfg, vec![f], vec![], false, w).0
+    });
+    let mut replay_detected = 0u64;
+    for ((ci, _, mj), r) in pcases.iter().zip(pres.iter()) {
+        let cfg = &cfgs[*ci];
+        let m = &cfg.honest.msgs[*mj];
+        let outs: Vec<String> = r.outcomes.iter().enumerate().map(|(p, o)| format!("p{p}:{}({})", o.0, o.1.chars().take(50).collect::<String>())).collect();
+        let what = format!("{}: {:?} #{} {}->{} replaced by the message of the previous batch", cfg.name, m.label, m.ord, m.from, m.to);
+        let replay = json!({"kind":"fault","case":cfg.case,"corrupted":cfg.corrupted,"seed":cfg.seed,"faults":[{"to": m.to, "label": m.label, "ord": m.ord, "mutation": "replay of the previous batch's message"}]});
+        if !r.faults_hit {
+            continue;
+        }
+        if r.outcomes[m.to].0 != "Err" {
+            rep.violation(format!("undetected:replayed:{}", m.label), format!("{what} -> {}", outs.join(" ")), replay);
+        } else if r.outcomes[m.to].1.contains("Closed") {
+            rep.violation(format!("peer_abort_only:replayed:{}", m.label), format!("{what} -> {}", outs.join(" ")), replay);
+        } else {
+            replay_detected += 1;
+        }
+    }
+    rep.set("replayed_batch_messages", json!({"runs": pcases.len(), "detected": replay_detected}));
+
     // ---- a choice bit used towards one peer only (inconsistent aBit input) --------------------------
     // The cheater runs the OT extension with peer k on x' = x with one bit flipped and everything else
     // on x.  The KOS column check passes (x' is used consistently inside that session); the aBit test
@@ -546,12 +588,12 @@ pub fn main(tier: Tier, seed: u64) -> i32 {
         }
     }
     rep.set("challenge_predictions_compared", json!(pred_checked));
-    rep.evaluations = j.evaluations + tap_cases.len() as u64 + xcases.len() as u64 + rcases.len() as u64 + sched_total + 4;
+    rep.evaluations = j.evaluations + tap_cases.len() as u64 + xcases.len() as u64 + rcases.len() as u64 + pcases.len() as u64 + sched_total + 4;
     rep.distinct_nontrivial = j.nontrivial.len() as u64 + tap_detected + x_detected;
     if rep.exhaustive.is_none() {
         rep.exhaustive = Some(true);
     }
-    rep.rule = "(a) every preprocessing message of the corrupted party (coin-toss commit/opening, Chou-Orlandi, ALSZ/KOS, aBit test, aShare commit/decommit/opened sums, HaAND, LaAND e/u/commit/hash, d-values, Beaver openings, broadcast echo): every field x position (quick: first/middle/last; thorough: every index) x {xor low/top bit, flip bool; thorough adds set-zero/ones}; paired variants for conditionally read branches; n=3 to one recipient and consistently to all; tap-based persistent liars; n=2: a rushing peer that echoes the victim's own messages of a commit / open round back to it (coin toss, aShare check, LaAND check, d-value and Beaver openings), alone and combined with one detected fault per label; a choice bit used towards one peer only (flipped in every column of the OT matrix as a message fault, and via a tap on the bits handed to that peer's OT session, at 9 index classes x 2 batches; for n=3 also with the test bits announced to that peer adjusted, so that only the broadcast echo can tell) - the peer must abort in the aBit test, before sending anything of the aShare phase. Oracle: honest recipients that consume the value return Err (consumption rules of DESIGN.md 2.2). (b) reveal-after-all-commits monitor on every schedule explored with the C12 explorer and on a 3-batch run. (c) predictor: challenge recomputed from coin-toss openings on the wire before the data under check is sent vs. probes of the challenge actually used (alarm on exact match only) and reuse between checks. distinct = (configuration, label/field, recipients, position); trivial = unread branch".into();
+    rep.rule = "(a) every preprocessing message of the corrupted party (coin-toss commit/opening, Chou-Orlandi, ALSZ/KOS, aBit test, aShare commit/decommit/opened sums, HaAND, LaAND e/u/commit/hash, d-values, Beaver openings, broadcast echo): every field x position (quick: first/middle/last; thorough: every index) x {xor low/top bit, flip bool; thorough adds set-zero/ones}; paired variants for conditionally read branches; n=3 to one recipient and consistently to all; tap-based persistent liars; n=2: a rushing peer that echoes the victim's own messages of a commit / open round back to it (coin toss, aShare check, LaAND check, d-value and Beaver openings), alone and combined with one detected fault per label; every message replaced by the previous batch's message with the same label; a choice bit used towards one peer only (flipped in every column of the OT matrix as a message fault, and via a tap on the bits handed to that peer's OT session, at 9 index classes x 2 batches; for n=3 also with the test bits announced to that peer adjusted, so that only the broadcast echo can tell) - the peer must abort in the aBit test, before sending anything of the aShare phase. Oracle: honest recipients that consume the value return Err (consumption rules of DESIGN.md 2.2). (b) reveal-after-all-commits monitor on every schedule explored with the C12 explorer and on a 3-batch run. (c) predictor: challenge recomputed from coin-toss openings on the wire before the data under check is sent vs. probes of the challenge actually used (alarm on exact match only) and reuse between checks. distinct = (configuration, label/field, recipients, position); trivial = unread branch".into();
     rep.assumptions = vec![
         "cryptographic negligible-probability events are treated as impossible".into(),
         "predictor alarms only on an exact 128-bit / whole-permutation match".into(),
